@@ -8,7 +8,9 @@ import (
 
 	"pgregory.net/rapid"
 
+	"github.com/ozontech/seq-db/pkg/seqproxyapi/v1"
 	"github.com/ozontech/seq-db/proxy/search"
+	"github.com/ozontech/seq-db/proxyapi"
 	"github.com/ozontech/seq-db/seq"
 
 	"verif/internal/evid"
@@ -132,6 +134,38 @@ func runProxy(c ProxyCase) (evid.Result, error) {
 		if c.PageOffset > 0 {
 			res.Labels = append(res.Labels, "page-offset>0")
 		}
+	}
+	// the same fetch through the proxy's public gRPC handler (proxyapi/grpc_async_search.go)
+	if n := min(len(want.IDs), 7); n > 0 {
+		api := proxyapi.VerifNewGrpcV1(proxyapi.APIConfig{SearchTimeout: time.Minute, ExportTimeout: time.Minute}, cl.Ing, nil, nil)
+		var hr *seqproxyapi.FetchAsyncSearchResultResponse
+		var herr error
+		func() {
+			defer func() {
+				if p := recover(); p != nil {
+					herr = evid.Failf("handler-panic", "[proxy API] FetchAsyncSearchResult of a finished search with %d ids, size %d: panic: %v", len(want.IDs), n, p)
+				}
+			}()
+			hr, herr = api.FetchAsyncSearchResult(ctx, &seqproxyapi.FetchAsyncSearchResultRequest{SearchId: start.ID, Size: int32(n)})
+		}()
+		if herr != nil {
+			if _, isFail := herr.(*evid.Failure); isFail {
+				return res, herr
+			}
+			return res, evid.Failf("fetchasync-error", "[proxy API] %q: %v", text, herr)
+		}
+		var got []model.ID
+		for _, d := range hr.GetResponse().GetDocs() {
+			id, err := seq.FromString(d.Id)
+			if err != nil {
+				return res, evid.Failf("bad-id", "[proxy API] %q", d.Id)
+			}
+			got = append(got, model.ID{MID: uint64(id.MID), RID: uint64(id.RID)})
+		}
+		if !model.EqualIDs(got, want.IDs[:n]) {
+			return res, evid.Failf("ids-differ", "[proxy API] %q size %d: got %v want %v", text, n, head(got), head(want.IDs[:n]))
+		}
+		res.Labels = append(res.Labels, "fetched-through-the-grpc-handler")
 	}
 	if c.R.Interval > 0 && !harness.EqualHist(harness.HistOf(&fr.QPR), want.Hist) {
 		return res, evid.Failf("hist-differs", "[proxy async] %q: got %s want %s", text, harness.FmtHist(harness.HistOf(&fr.QPR)), harness.FmtHist(want.Hist))
